@@ -7,12 +7,15 @@
    Both dictionaries are Python dicts: ordered, `d[k] = v` replaces in place or appends, `del d[k]`
    removes.  What a Library slot holds is abstracted to its *owner*: the function that was there when
    the Library was handed to the registry (OBuiltin) or a `tag_fn` closure created by registry `rid`.
-   A class is (code of `_class_hash`, identity of the class object): `register` compares the hash,
-   `get`/`all` return the object.
+   A class is (code of `_class_hash`, identity of the class object).  CLASS IDENTITY IS THE HASH: `_class_hash`
+   is derived from the import path (util/misc.py hash_comp_cls), `register` compares nothing else
+   (`cls_hash`, `same_class`), so two class objects with one import path are "the same class" for the registry;
+   `get`/`all` return the stored object, which is the one passed to the LAST accepted register call.
 
    Every Python operation that could raise is an explicit outcome (KeyError of `self._tags[tag]`,
    of `set.remove`, ...).  Definitions only; the proofs are in Registry/Proofs.v. *)
 From DJC Require Import Lib.Base.
+From DJC Require Gen.C15.
 
 (* ---------- ordered dictionaries keyed by strings ---------- *)
 Section SMap.
@@ -74,6 +77,10 @@ Inductive out := RNone | RCls (c : N * N) | RAll (d : list (str * (N * N))) | RE
 
 Inductive op :=
   ORegister (n : str) (c : N * N) | OUnregister (n : str) | OClear | OGet (n : str) | OAll.
+
+(* the two components of a class: what `register` compares, and which object `get` hands back *)
+Definition cls_hash (c : N * N) : N := fst c.
+Definition cls_obj (c : N * N) : N := snd c.
 
 (* `existing.cls._class_hash != component._class_hash` *)
 Definition same_class (a b : N * N) : bool := N.eqb (fst a) (fst b).
@@ -248,12 +255,23 @@ Fixpoint project_outs (i : nat) (ops : list wop) (outs : list out) : list out :=
   end.
 
 (* ---------- the tag formatters ---------- *)
-(* TAG_CHARS = r"\w\-\:\@\.\#/" ; \w is modelled exactly for code points < 128 *)
+(* TAG_CHARS = r"\w\-\:\@\.\#/".  Below code point 128 the class is written out by hand (anchored to the
+   pattern string in Props/C15.v).  Python's \w is Unicode-aware: from 128 on the class is the table
+   Gen.C15.tag_ranges_hi = the code points c >= 128 for which TAG_RE itself accepts the one-character tag chr(c)
+   (harness/gen_c15.py probes the compiled TAG_RE of /repo on every run; inclusive ranges). *)
 Definition is_word (c : N) : bool :=
   (N.leb 48 c && N.leb c 57) || (N.leb 65 c && N.leb c 90) || (N.leb 97 c && N.leb c 122) || N.eqb c 95.
 
+Fixpoint in_ranges (c : N) (rs : list (N * N)) : bool :=
+  match rs with
+  | [] => false
+  | (lo, hi) :: r => (N.leb lo c && N.leb c hi) || in_ranges c r
+  end.
+
 Definition tag_char (c : N) : bool :=
-  is_word c || N.eqb c 45 || N.eqb c 58 || N.eqb c 64 || N.eqb c 46 || N.eqb c 35 || N.eqb c 47.
+  if N.ltb c 128
+  then is_word c || N.eqb c 45 || N.eqb c 58 || N.eqb c 64 || N.eqb c 46 || N.eqb c 35 || N.eqb c 47
+  else in_ranges c Gen.C15.tag_ranges_hi.
 
 (* InternalTagFormatter._validate_tag: `not tag` or `not TAG_RE.match(tag)` => ValueError.
    TAG_RE = ^[chars]+$ ; `$` also matches just before a final newline. *)
@@ -346,6 +364,61 @@ Definition check_reg (c : reg_case) : bool :=
   list_eqb obs_step_eqb obs obs'
   && list_eqb (assoc_equiv cls_eqb) alls (map (fun rg => contents (wst rg)) (wregs w))
   && list_eqb (assoc_equiv Bool.eqb) libs (map obs_lib (wlibs w)).
+
+(* ---------- correspondence cases, tree form ----------
+   All histories over an alphabet share their prefixes: a forest of calls, each node carrying what was observed
+   after the call (its result, all() of EVERY registry, the tag table of EVERY library).  The model state is
+   threaded down the tree, so a node costs one `wstep`.  Registry/Proofs.v (check_forest_paths) shows that
+   checking a forest is checking every root-to-node history call by call. *)
+Notation wobs := (out * list (list (str * (N * N))) * list (list (str * bool)))%type (only parsing).
+
+Definition observe (w : world) (y : out) : wobs :=
+  (y, map (fun rg => contents (wst rg)) (wregs w), map obs_lib (wlibs w)).
+
+Definition wobs_eqb (a b : wobs) : bool :=
+  out_eqb (fst (fst a)) (fst (fst b))
+  && list_eqb (assoc_equiv cls_eqb) (snd (fst a)) (snd (fst b))
+  && list_eqb (assoc_equiv Bool.eqb) (snd a) (snd b).
+
+Inductive otree := K (o : wop) (q : wobs) (kids : oforest)
+with oforest := FN | FC (t : otree) (f : oforest).
+
+Fixpoint check_tree (w : world) (t : otree) : bool :=
+  match t with
+  | K o q kids => let '(w1, y) := wstep w o in wobs_eqb q (observe w1 y) && check_forest w1 kids
+  end
+with check_forest (w : world) (f : oforest) : bool :=
+  match f with
+  | FN => true
+  | FC t f' => check_tree w t && check_forest w f'
+  end.
+
+(* one history with its observations, call by call *)
+Fixpoint check_path (w : world) (p : list (wop * wobs)) : bool :=
+  match p with
+  | [] => true
+  | (o, q) :: r => let '(w1, y) := wstep w o in wobs_eqb q (observe w1 y) && check_path w1 r
+  end.
+
+Fixpoint tree_paths (t : otree) : list (list (wop * wobs)) :=
+  match t with
+  | K o q kids => [(o, q)] :: map (cons (o, q)) (forest_paths kids)
+  end
+with forest_paths (f : oforest) : list (list (wop * wobs)) :=
+  match f with
+  | FN => []
+  | FC t f' => tree_paths t ++ forest_paths f'
+  end.
+
+Notation tree_case := (list libspec * list regspec * oforest)%type (only parsing).
+Notation path_case := (list libspec * list regspec * list (wop * wobs))%type (only parsing).
+
+(* one history (random long ones; locating the shortest disagreeing history inside a refused forest) *)
+Definition check_path_case (c : path_case) : bool :=
+  let '(ls, rs, p) := c in check_path (mk_world ls rs) p.
+
+Definition check_forest_case (c : tree_case) : bool :=
+  let '(ls, rs, f) := c in check_forest (mk_world ls rs) f.
 
 (* matcher-level differential: (string, what InternalTagFormatter._validate_tag decided) *)
 Definition check_valid (c : str * bool) : bool := Bool.eqb (valid_tag (fst c)) (snd c).
